@@ -115,11 +115,6 @@ where
                 new_idx += 1;
             }
         }
-    } else {
-        let old_orig_idx = old_range.start + common_prefix_len + old_idx;
-        let new_orig_idx = new_range.start + common_prefix_len + new_idx;
-        d.delete(old_orig_idx, old_len, new_orig_idx)?;
-        d.insert(old_orig_idx, new_orig_idx, new_len)?;
     }
 
     if old_idx < old_len {
